@@ -10,9 +10,9 @@ Import ListNotations.
 Local Open Scope Z_scope.
 
 (* handleCommentMatch: the model's handler; a report is delivered to the world (the list of reports so far) *)
-Definition gen_handle (re_match : bytes -> bytes -> option bool) (l : Z)
+Definition gen_handle (re_match : bytes -> bytes -> option bool) (l : Z) (src : bytes)
            (r : crule * option (list Z)) (m : mdata) (w : list mreport) : outcome (bool * list mreport) :=
-  bind (handle re_match l (fst r) m) (fun out =>
+  bind (handle re_match l src (fst r) m) (fun out =>
   match out with Some rep => Ok (true, w ++ [rep]) | None => Ok (false, w) end).
 
 (* a rule comes with the regexp oracle's answer on comment.Text (FindStringIndex = the first pair of it); token.Pos values
@@ -28,5 +28,5 @@ Definition gen_run_comment_rules (in_range : Z -> Z -> bytes -> outcome bool) (r
     (fun r => c_names (fst r))
     (fun p t => comment_node in_range src (p - base) t)
     md_zero md_add md_set
-    (gen_handle re_match l)
+    (gen_handle re_match l src)
     rules (base + off) text w.
